@@ -442,9 +442,9 @@ pub fn eval(toks: &[&str]) -> String {
             show_res(&r, |n| format!("n={} next={}", n, c.pos()))
         }
         "iter" => {
-            let labels = vh::labels_at(buf, pos);
+            let mut labels = vh::labels_at(buf, pos);
             let mut out: Vec<String> = Vec::new();
-            for l in labels {
+            while let Some(l) = labels.next() {
                 match l {
                     Ok(l) => {
                         if !g.contains(l.bytes()) {
@@ -455,7 +455,17 @@ pub fn eval(toks: &[&str]) -> String {
                         // the slice address (bytes start one past the length octet)
                         out.push(format!("{}@{}", to_hex(l.bytes()), off - 1));
                     }
-                    Err(e) => return format!("err {}", show_err(&e)),
+                    Err(e) => {
+                        // a name that is rejected stays rejected: the walk ends with its first error
+                        for _ in 0..3 {
+                            match labels.next() {
+                                None => {}
+                                Some(Ok(l)) => return format!("resumed-after-error {} then label {}", show_err(&e), to_hex(l.bytes())),
+                                Some(Err(e2)) => return format!("resumed-after-error {} then {}", show_err(&e), show_err(&e2)),
+                            }
+                        }
+                        return format!("err {}", show_err(&e));
+                    }
                 }
             }
             format!("ok {}", out.join(","))
